@@ -122,6 +122,13 @@ def one(binary, rec, idx, seed, work, pem):
     upstream.start()
     addr, api = free_port(), free_port()
     dead = free_port()
+    held = None
+    if c["refusal"] == "bad-address":
+        # the listen address is taken (by this socket, from now on): start-up fails after the configuration was accepted
+        held = socket.socket()
+        held.bind(("127.0.0.1", 0))
+        held.listen(1)
+        addr = held.getsockname()[1]
     opts, env = {}, dict(os.environ)
     opts["address"] = "127.0.0.1:%d" % addr
     opts["api-address"] = "127.0.0.1:%d" % api
@@ -135,7 +142,6 @@ def one(binary, rec, idx, seed, work, pem):
     user, item = None, c["item"]
     refusal = c.get("refusal", "none")
     secrets = [secret]
-    held = None
     rendering = None
     tls = False
     up_port = dead if c["traffic"] == "upstream-error" else upstream.port
@@ -187,10 +193,11 @@ def one(binary, rec, idx, seed, work, pem):
             if item == "cacertAfterPath":
                 opts["cacert-file"] = pem["cert"] + ",data:base64," + bundle_b64
                 rendering = "data:xxxxx"
-        elif item == "mitm-ca":
+        elif item in ("mitm-ca", "mitmBare"):
+            head = "data:" if item == "mitmBare" else "data:base64,"
             opts["mitm"] = "true"
-            opts["mitm-cacert-file"] = "data:base64," + cert_b64
-            opts["mitm-cakey-file"] = "data:base64," + key_b64
+            opts["mitm-cacert-file"] = head + cert_b64
+            opts["mitm-cakey-file"] = head + key_b64
             rendering = "mitm-cakey-file=data:xxxxx"
         else:
             opts["protocol"] = "https"
@@ -198,11 +205,7 @@ def one(binary, rec, idx, seed, work, pem):
             opts["tls-key-file"] = "data:base64," + key_b64
             rendering = "tls-key-file=data:xxxxx"
             tls = True
-    if refusal == "bad-address":
-        held = socket.socket()
-        held.bind(("127.0.0.1", addr))
-        held.listen(1)            # the listen address is taken: start-up fails after the configuration was accepted
-    elif refusal == "missing-pac":
+    if refusal == "missing-pac":
         opts["pac"] = os.path.join(work, "no-such-%d.pac" % idx)
     args = [binary, "run"]
     if c["form"] == "flag":
